@@ -32,11 +32,13 @@ ASSUMPTIONS = ['warnings/stdout/callback capture observes what errcheck emits',
 PROF = getattr(E, '__errprof')
 CB = {}       # (kind, cbid) -> function
 CBID = {}     # function -> cbid
+CALLS = []    # callback invocations, in order
 
 
 def _cb(kind, n):
     if (kind, n) not in CB:
         def f(item, kind=kind, n=n):
+            CALLS.append((kind, n))
             return ('called', kind, n)
         CB[(kind, n)] = f
         CBID[f] = n
@@ -73,6 +75,7 @@ def observe(fn):
     buf = io.StringIO()
     old = E.stdout
     E.stdout = buf
+    del CALLS[:]
     try:
         with warnings.catch_warnings(record=True) as w:
             warnings.simplefilter('always')
@@ -87,9 +90,10 @@ def observe(fn):
         if w:
             return ['ok', ['warn', MSG2KIND.get(str(w[0].message), str(w[0].message))]]
         if buf.getvalue():
-            return ['ok', ['print', MSG2KIND.get(buf.getvalue().rstrip('\n'), buf.getvalue())]]
-        if isinstance(ret, tuple) and len(ret) == 3 and ret[0] == 'called':
-            return ['ok', ['call', ret[1], ret[2]]]
+            line = buf.getvalue().split('\n')[0]    # an operation may check more than once (collapse: twice)
+            return ['ok', ['print', MSG2KIND.get(line, line)]]
+        if CALLS:
+            return ['ok', ['call', CALLS[0][0], CALLS[0][1]]]
         return ['ok', ['none']]
     finally:
         E.stdout = old
@@ -234,6 +238,13 @@ def encode(c):
             prog.append(['setcall', c['errkind'], 1])
         args = ['empty'] if c['site'] == 'collapse' else []
         prog.append(['check', c['view'], args])
+        if c['site'] == 'collapse':
+            # collapse checks 'empty' on the receiver, then the constructor checks the collapsed table;
+            # for an empty receiver the code assembles a 0 x 0 matrix for one collapsed id (known finding F25)
+            v = c['view']
+            v2 = dict(v, cols=1, sids=[99], smd=1, empty=False) if not v['empty'] else \
+                dict(v, rows=0, cols=0, sids=[99], smd=1, empty=True)
+            prog.append(['check', v2, []])
         return [8, [enc_instr(i) for i in prog]]
     return [8, [enc_instr(i) for i in c['prog']]]
 
@@ -271,6 +282,10 @@ def dec_obs(t):
 def decode(tree, c):
     out = [dec_obs(o) for o in tree]
     if c['kind'] == 'react':
+        if c['site'] == 'collapse':
+            first, second = out[-4], out[-2]
+            ev = first if first[1] != ['ok', ['none']] else second
+            return [ev, out[-1]]
         return out[-2:]
     return out
 
@@ -501,4 +516,9 @@ def shrink(c):
 
 
 # known-finding signatures: (case, impl obs, model obs, oracle failures) -> bool
-SIGNATURES = {}
+def _f25(c, io, mo, fails):
+    return (c.get('kind') == 'react' and c.get('site') == 'collapse' and c.get('reaction') == 'ignore'
+            and c.get('trigger') and io and io[0][0] == 'check' and io[0][1][0] == 'ok' and io[0][1][1][0] == 'raise')
+
+
+SIGNATURES = {'F25': _f25}
